@@ -60,7 +60,8 @@ class Contract:
     def __init__(self, target, *, params=None, self_type=None, result=None, requires=None, ensures=None,
                  raises=None, modifies=None, loops=None, tags=(), kind="property", recursive_ok=False,
                  decreases=None, pre_hints=None, post_hints=None, entry=False, setup=None, ghost=None,
-                 exc_hints=None, pure=False, havoc_self=False, cutpoints=None, assume_ensures_only=False):
+                 exc_hints=None, pure=False, havoc_self=False, cutpoints=None, assume_ensures_only=False, label=None):
+        self.label = label
         self.target = target
         self.params = params or {}            # name -> type string (overrides annotations)
         self.self_type = self_type            # class spec name for `self`
@@ -784,7 +785,7 @@ def verify(eng, c: Contract, tags=None, timeout_ms=None, both=False):
     if got is None:
         raise Unsupported(f"contract target {c.target} not found in the source tree")
     msrc, node, qn = got
-    CTX.target = c.target.replace("aioesphomeapi.", "")
+    CTX.target = c.target.replace("aioesphomeapi.", "") + (f"[{c.label}]" if c.label else "")
     CTX.tags = list(tags or c.tags)
     CTX.timeout_ms = timeout_ms
     CTX.both = both
